@@ -10,13 +10,14 @@
    over every history, hence over every interleaving of concurrent calls. *)
 From Coq Require Import List ZArith String Bool.
 From GZ Require Export Lib.RedisStore.
-From GZgen Require Lua_lock Lua_del.
+From GZgen Require Lua_lock Lua_del C19Consts.
 Import ListNotations.
 Open Scope Z_scope.
 
-(* redislock.go constants *)
-Definition tolerance : Z := 500.          (* ms *)
-Definition millisPerSecond : Z := 1000.
+(* redislock.go constants, re-extracted from the source on every run (coq/gen/C19Consts.v);
+   C19/GenProofs.v proves that today's values are the property's (500 ms, 1000 ms/s) *)
+Definition tolerance : Z := C19Consts.gen_tolerance.          (* ms *)
+Definition millisPerSecond : Z := C19Consts.gen_millisPerSecond.
 
 (* one RedisLock object: its random id (case data: what stringx.Randn produced) and the
    `seconds` field (uint32, 0 until SetExpire is called) *)
@@ -29,34 +30,50 @@ Inductive op :=
 | ORelease (i : nat)
 | OSetExpire (i : nat) (seconds : Z)       (* atomic.StoreUint32(&rl.seconds, uint32(seconds)) *)
 | OAdvance (ms : Z)                        (* time passes *)
-| OPoke (v : bulk) (ttl : option Z).       (* a foreign client writes the key directly *)
+| OPoke (v : bulk) (ttl : option Z)        (* a foreign client writes the key directly *)
+| OTtl                                     (* observe the key's remaining time to live (PTTL) *)
+| OFault (i : nat) (rel : bool) (r : reply).
+      (* STORE FAULT: instance i's Acquire (rel = false) / Release (rel = true) whose command is
+         answered [r] by a faulty store / connection instead of being executed *)
 
 Inductive obs :=
 | RB (b : bool) (error : bool)             (* (bool, err != nil) of Acquire / Release *)
+| RT (t : option (option Z))               (* None: absent; Some None: no expiry; Some (Some ms) *)
 | RU.                                      (* nothing to observe *)
 
 (* the PX argument: int(seconds)*millisPerSecond + tolerance *)
 Definition lease (seconds : Z) : Z := seconds * millisPerSecond + tolerance.
 Definition to_uint32 (z : Z) : Z := z mod 4294967296.
 
-(* AcquireCtx *)
+(* AcquireCtx: what the wrapper makes of the store's reply *)
+Definition acquire_reply (r : reply) : obs :=
+  match r with
+  | RNil => RB false false                      (* errors.Is(err, red.Nil) *)
+  | RErr _ => RB false true
+  | RStatus s | RBulk (BStr s) => RB (String.eqb s "OK") false
+  | RBulk (BInt _) | RInt _ => RB false false   (* "unknown reply" *)
+  end.
+
 Definition acquire (key : bulk) (l : inst) (st : rstate) : rstate * obs :=
   let '(r, st') := eval Lua_lock.script [key] [BStr (iid l); BInt (lease (isecs l))] st in
-  (st', match r with
-        | RNil => RB false false                      (* errors.Is(err, red.Nil) *)
-        | RErr _ => RB false true
-        | RStatus s | RBulk (BStr s) => RB (String.eqb s "OK") false
-        | RBulk (BInt _) | RInt _ => RB false false   (* "unknown reply" *)
-        end).
+  (st', acquire_reply r).
 
 (* ReleaseCtx *)
+Definition release_reply (r : reply) : obs :=
+  match r with
+  | RNil | RErr _ => RB false true              (* err != nil (red.Nil included) *)
+  | RInt n => RB (n =? 1) false
+  | RBulk _ | RStatus _ => RB false false       (* resp.(int64) fails *)
+  end.
+
 Definition release (key : bulk) (l : inst) (st : rstate) : rstate * obs :=
   let '(r, st') := eval Lua_del.script [key] [BStr (iid l)] st in
-  (st', match r with
-        | RNil | RErr _ => RB false true              (* err != nil (red.Nil included) *)
-        | RInt n => RB (n =? 1) false
-        | RBulk _ | RStatus _ => RB false false       (* resp.(int64) fails *)
-        end).
+  (st', release_reply r).
+
+(* a forged reply that the wrapper cannot tell from success *)
+Definition forged_success (rel : bool) (r : reply) : bool :=
+  if rel then match r with RInt 1 => true | _ => false end
+  else match r with RStatus s | RBulk (BStr s) => String.eqb s "OK" | _ => false end.
 
 Fixpoint set_secs (i : nat) (secs : Z) (ls : list inst) : list inst :=
   match ls, i with
@@ -80,6 +97,12 @@ Definition step (key : bulk) (s : state) (o : op) : state * obs :=
   | OSetExpire i secs => (mkState (store s) (set_secs i (to_uint32 secs) (insts s)), RU)
   | OAdvance ms => (mkState (advance (store s) ms) (insts s), RU)
   | OPoke v ttl => (mkState (store_put (store s) key (mkEntry v (exp_after (store s) ttl))) (insts s), RU)
+  | OTtl => (s, RT (pttl (store s) key))
+  | OFault i rel r =>
+    match nth_error (insts s) i with
+    | Some _ => (s, if rel then release_reply r else acquire_reply r)
+    | None => (s, RU)
+    end
   end.
 
 Fixpoint run (key : bulk) (s : state) (ops : list op) : list obs :=
@@ -147,6 +170,16 @@ Definition sp_step (a : astate) (o : op) : astate * obs :=
   | OAdvance ms => (mkA (aheld a) (anow a + ms) (ainsts a) (aincl a), RU)
   | OPoke v ttl => (mkA (Some (v, match ttl with Some t => Some (anow a + t) | None => None end))
                         (anow a) (ainsts a) (aincl a), RU)
+  | OTtl => (a, RT match a_seen a with
+                   | None => None
+                   | Some (_, None) => Some None
+                   | Some (_, Some t) => Some (Some (t - anow a))
+                   end)
+  | OFault i rel r =>
+    match nth_error (ainsts a) i with
+    | Some _ => (a, if rel then release_reply r else acquire_reply r)
+    | None => (a, RU)
+    end
   end.
 
 Fixpoint sp_run (a : astate) (ops : list op) : list obs :=
@@ -159,3 +192,36 @@ Fixpoint sp_run (a : astate) (ops : list op) : list obs :=
 Definition abs (key : bulk) (s : state) : astate :=
   mkA (match find key (rdata (store s)) with Some e => Some (evalue e, eexp e) | None => None end)
       (rnow (store s)) (insts s) (expiry_inclusive (store s)).
+
+(* ---------------------------------------------------------------- several keys on one store *)
+(* a history in which every operation names the key it works on (each RedisLock object has
+   one key; SetExpire and Advance do not depend on it) *)
+Fixpoint krun (s : state) (kops : list (bulk * op)) : list obs :=
+  match kops with
+  | [] => []
+  | (k, o) :: kops' => let '(s', r) := step k s o in r :: krun s' kops'
+  end.
+
+Fixpoint kfinal (s : state) (kops : list (bulk * op)) : state :=
+  match kops with
+  | [] => s
+  | (k, o) :: kops' => kfinal (fst (step k s o)) kops'
+  end.
+
+Definition global_op (o : op) : bool :=
+  match o with OSetExpire _ _ | OAdvance _ => true | _ => false end.
+
+(* the part of a multi-key history that concerns key k: its own operations, clock, SetExpire *)
+Definition concerns (k : bulk) (ko : bulk * op) : bool := bulk_eqb k (fst ko) || global_op (snd ko).
+
+Fixpoint proj_ops (k : bulk) (kops : list (bulk * op)) : list op :=
+  match kops with
+  | [] => []
+  | ko :: kops' => if concerns k ko then snd ko :: proj_ops k kops' else proj_ops k kops'
+  end.
+
+Fixpoint proj_obs (k : bulk) (kops : list (bulk * op)) (rs : list obs) : list obs :=
+  match kops, rs with
+  | ko :: kops', r :: rs' => if concerns k ko then r :: proj_obs k kops' rs' else proj_obs k kops' rs'
+  | _, _ => []
+  end.
